@@ -72,7 +72,7 @@ CHECKS = {
         technique='TLA+ two-layer spec: structured big-step meaning (BareCore.ExecBlock) vs lowering + jump machine '
                   '(BareLower.Lower, BareCore.Run); TLC equivalence model checking over the exhaustive program family '
                   '(MC_Struct) + TLC trace validation of real parse_script+execute_script runs against ExecBlock (Trace_Struct)',
-        text='TLC checks on every program of StructFamily (all chains of the 13 positioned constructs - 8 if forms, while, for, nested loops, value-conditioned while - x loop tails x 7 contexts incl. functions defined inside blocks, '
+        text='TLC checks on every program of StructFamily (all chains of the 16 positioned constructs - 8 if forms, 3 forms with EMPTY arms before else / elif, while, for, for with index, value-conditioned while - x loop tails x 7 contexts incl. functions defined inside blocks, '
              'depth 2; depth 3 in the thorough tier) x inputs that the structured meaning and the jump machine on the lowering '
              'agree on result, probe sequence and globals. Every program of the family under a covering input set, and random '
              'programs to depth 5 with up to 3 functions, are rendered to source text, parsed and executed by the real code; '
